@@ -38,13 +38,15 @@ def gen_cases(ctx, n_streams):
         tags.append(({'corpus'}, 'corpus'))
     for d in directed:
         for fin in ['eof', 'pending', 'err']:
-            cases.append(('tcp', 'stop', fin, d))
-            tags.append(({'directed'}, 'directed'))
+            for mode in ['stop', 'cancel']:
+                cases.append(('tcp', mode, fin, d))
+                tags.append(({'directed'}, 'directed'))
     for _ in range(n_streams):
         s, bounds, t = fc.gen_mbap_stream(r)
         for sched_tag, chunks in fc.schedules(r, s, bounds, want=3 if len(s) < 400 else 2):
             fin = r.choice(['eof', 'pending', 'err'])
-            mode = 'resume' if r.random() < 0.15 else 'stop'
+            k = r.random()
+            mode = 'resume' if k < 0.15 else 'cancel' if k < 0.40 else 'stop'
             cases.append(('tcp', mode, fin, chunks))
             tags.append((t, sched_tag))
     return cases, tags
@@ -196,15 +198,18 @@ def run(ctx):
         tags = [(set(), 'replay')] * len(cases)
     else:
         cases, tags = gen_cases(ctx, 700 if ctx.quick() else 6000)
-    results = fc.evaluate(ctx, cases)
-    n_spec, n_model = fc.compare(ctx, cases, results, 'MBAP reader')
+    decode = (ctx.replay or {}).get('decode', 'min')
+    results = fc.evaluate(ctx, cases, decode)
+    n_spec, n_model = fc.compare(ctx, cases, results, 'MBAP reader', decode)
     ctx.oblige('correspondence:framed-reader-tcp', n_spec == 0 and n_model == 0, f'{n_model} model / {n_spec} spec mismatches over {len(cases)} cases')
-    # the same cases with full protocol decoding switched on must give the same lines (C20 uses this too)
+    # the same cases with full protocol decoding switched on: judged against the Spec again (a difference is a
+    # concrete violation: at that decode level the reader accepts / rejects something the stream does not prescribe)
     if not ctx.replay:
-        sample = cases[:300]
+        sample = cases[:400]
         loud = fc.evaluate_impl_only(ctx, sample, 'max')
-        diff = [k for k, (a, b) in enumerate(zip(loud, [r[0] for r in results[:300]])) if a != b]
-        ctx.oblige('decode-level-does-not-change-framing', not diff, f'{len(diff)} of {len(sample)} differ' + (f'; first: {fc.to_line(sample[diff[0]])[:200]}' if diff else ''))
+        res_max = [(i, r[1], r[2], {}) for i, r in zip(loud, results[:400])]
+        ns, nm = fc.compare(ctx, sample, res_max, 'MBAP reader', 'max')
+        ctx.oblige('decode-level-does-not-change-framing', ns == 0 and nm == 0, f'{ns} spec / {nm} model mismatches at decode level max over {len(sample)} cases')
     # client, consecutive connections
     if client_cases is None:
         client_cases = gen_client_cases(ctx, 300 if ctx.quick() else 3000)
@@ -257,6 +262,8 @@ def run(ctx):
             bump('stream:' + x)
         bump('ending:' + fc.ending_class(impl))
         bump('mode:' + c[1])
+        if c[1] == 'cancel' and len(c[3]) >= 2 and 'F(' in impl:
+            bump('cancel:abandoned_mid_frame')       # a frame was delivered although calls were abandoned while it was arriving
         nfr = impl.count('F(')
         bump('frames:' + ('0' if nfr == 0 else '1' if nfr == 1 else '2-4' if nfr <= 4 else '5+'))
         if stats.get('compactions', 0) > 0:
@@ -276,7 +283,7 @@ def run(ctx):
     if not ctx.replay:
         need = ['ending:UnknownProtocolId', 'ending:FrameLengthTooBig', 'ending:MbapLengthZero', 'ending:Io(UnexpectedEof)', 'ending:Pending',
                 'buffer:compacted', 'buffer:full_with_14_consumed', 'buffer:reset_when_empty', 'schedule:byte_per_byte', 'schedule:buffer_edge', 'stream:longer_than_buffer',
-                'client:ok_after_dead_connection', 'mode:resume']
+                'client:ok_after_dead_connection', 'mode:resume', 'mode:cancel', 'cancel:abandoned_mid_frame']
         missing = [k for k in need if classes.get(k, 0) < 3]
         ctx.oblige('generator-reaches-expected-classes', not missing, 'missing: ' + ','.join(missing))
     nontrivial = set(fc.to_line(c) for c, (impl, _, _, _) in zip(cases, results) if len(c[3]) >= 2 and 'F(' in impl)
